@@ -23,6 +23,9 @@ Clauses (property C09):
                user's input (delivered, and the user's previous line served) it is served within `users + 2` loop
                iterations - each other user can abort at most one iteration with an uncaught error before the rotating
                start slot has moved past him (C12 owns the exact fairness statement; this is the failure-isolation bound)
+  sweep        bounded work per tick: within one loop iteration the object sweep applies reset() to an object at most once
+               and clean_up() at most once - the sweep restarts its walk after an error, and a failing reset() must
+               not be found due again (the driver would spin inside one tick, nobody else is served any more)
   preload      every file the master's epilog() names is handed to preload(), in order, also after one failed to load
   disconnect   the driver tells a user object `net_dead` only when that user's own client went away: events of other
                connections (hang-ups, errors, accepts arriving in the same poll) never cost a user its connection
@@ -263,8 +266,24 @@ def clauseIsolation (x : Expect) (es : List Ev) : List String :=
       | some (j, w) => some s!"isolation {u.name} line {j} waited {w} iterations at the head of its input (bound {bound})"
       | none => none)
 
+/-- clause `sweep`: `rs` / `cs` = objects whose reset() / clean_up() was already applied in this iteration -/
+def sweepOnce : List Oid → List Oid → List Ev → List String
+  | _, _, [] => []
+  | _, _, .cycle _ :: es => sweepOnce [] [] es
+  | rs, cs, .tReset o :: es =>
+    if rs.contains o then [s!"sweep reset() of {o.name} applied again in the same tick (the sweep does not advance)"]
+    else sweepOnce (o :: rs) cs es
+  | rs, cs, .tCleanup o :: es =>
+    if cs.contains o then [s!"sweep clean_up() of {o.name} applied again in the same tick (the sweep does not advance)"]
+    else sweepOnce rs (o :: cs) es
+  | rs, cs, _ :: es => sweepOnce rs cs es
+
+def clauseSweep (es : List Ev) : List String := sweepOnce [] [] es
+
 def judgeEv (x : Expect) (es : List Ev) : List String :=
-  if !(clauseCrash es).isEmpty then clauseCrash es else
+  -- a run that was cut off (time-out, output cap) is a crash-class verdict; when the cut-off trace already shows the
+  -- sweep spinning, that precise verdict comes first
+  if !(clauseCrash es).isEmpty then clauseSweep es ++ clauseCrash es else
   let ex := hasExit es
   let v1 := clauseExit x es
   let v2 := clauseCycles es
@@ -302,6 +321,6 @@ def judgeEv (x : Expect) (es : List Ev) : List String :=
     | some n =>
       let live := (liveUsers [] es).length
       if n > live then [s!"leaked-conn slots={n} live-users={live}"] else []
-  v1 ++ v2 ++ v3 ++ v4 ++ v5 ++ v6 ++ v7 ++ clauseRefs es ++ clauseDisconnect x es ++ clauseHbSchedule es ++ clauseTurns es ++ clausePreload x es ++ clauseIsolation x es
+  v1 ++ v2 ++ v3 ++ v4 ++ v5 ++ v6 ++ v7 ++ clauseRefs es ++ clauseDisconnect x es ++ clauseHbSchedule es ++ clauseTurns es ++ clausePreload x es ++ clauseIsolation x es ++ clauseSweep es
 
 end NV.C09
